@@ -24,7 +24,7 @@ class Run:
 
     def finish(self, proof):
         pid = self.pid
-        known = core.load_known(pid)
+        known = getattr(self, "known_entries", None) or core.load_known(pid)
         # correspondence broken without any failing input: report, naming what no longer checks
         if self.corr_breaks and not any(f for _, f in self.violations):
             fam, case, impl, model = self.corr_breaks[0]
@@ -55,7 +55,7 @@ class Run:
         json.dump(ev, open(evidence_path(pid), "w"), indent=1)
         for k in known:
             if k["state"] == "open" and self.known_seen.get(k["cls"], 0) > 0:
-                print("KNOWN-FINDING: property=%s %s" % (pid, k["text"]))
+                print("KNOWN-FINDING: property=%s %s" % (k.get("pid", pid), k["text"]))
         if self.violations:
             # prefer a violation with a concrete failing input
             self.violations.sort(key=lambda v: not v[1])
@@ -155,6 +155,17 @@ def main_check(pid, spec, tier, seed, replay=None):
         if not okh:
             log("harness build failed:\n" + outh[-4000:])
     known = core.load_known(pid)
+    # a check that serves several properties (vlib/props/routes.py) lists them in KNOWN_PIDS: take their entries that
+    # name one of this check's families; classes listed in SHARED_CLASSES are honoured without their witnesses
+    fam_names = {f.name for f in spec.FAMILIES}
+    for other in getattr(spec, "KNOWN_PIDS", []):
+        if other != pid:
+            for k in core.load_known(other):
+                if k["family"] in fam_names:
+                    known.append(dict(k, pid=other))
+                elif k["cls"] in getattr(spec, "SHARED_CLASSES", ()):
+                    known.append(dict(k, pid=other, witness=None))
+    run.known_entries = known
     known_classes = {k["cls"] for k in known if k["state"] == "open"}
     if replay:
         return do_replay(run, spec, replay, known_classes)
